@@ -169,7 +169,7 @@ def freeze(ex, state, x, line, into=None):
     hyp = not_held(state, r)
     state.assume(z3.Implies(hyp, facts(x, r)))
     # least upper / greatest lower bound instances for the watermarks in use
-    for m in (state.mark, ex.ctx.mark0):
+    for m in [state.mark, ex.ctx.mark0] + list(getattr(state, 'loop_marks', []))[-2:]:
         state.assume(z3.Implies(below(r, m), TOP(r) <= m))
         state.assume(z3.Implies(at_least(r, m), BOT(r) >= m))
     reveal(ex, state, r)
